@@ -189,4 +189,15 @@ theorem quic_loop_eq_model (M : QuicMachine κ τ ο) (o : Opts) (kl : List κ) 
         · simp [hm]
         · simp [hm]
 
+/-- the write loop of `run()`: one `writer.writepkt(bytes(buf), ts)` per collected frame, in the collected order (nothing is
+    reordered or dropped between `all_decrypted_sessions` and the output file) -/
+theorem write_all_eq_model {β θ : Type} (l : List (β × θ)) : (Main.write_all l).acts = l := by
+  unfold Main.write_all
+  have h : ∀ (l acc : List (β × θ)), List.foldl (fun acc (x : β × θ) => acc ++ [(x.1, x.2)]) acc l = acc ++ l := by
+    intro l
+    induction l with
+    | nil => intro acc; simp
+    | cons x r ih => intro acc; simp [List.foldl_cons, ih]
+  exact (h l []).trans (by simp)
+
 end TLX.Props.Translated.Main2
